@@ -321,10 +321,13 @@ func runC08(c *Ctx) {
 	}
 	if c.S.Viol == nil {
 		sv := CheckStreams(c, t, v, "C08", !v.Dead && !t.closed)
-		if c.S.Viol == nil && sv != nil && unframeable != "" && sv.HostGot < sv.HostWant {
+		if c.S.Viol == nil && sv != nil && strings.HasPrefix(unframeable, "length-field=") && p.CloseAfter < 0 && p.EndBody == 0 && sv.HostGot < sv.HostWant {
 			// the stream could not be framed any further, but every packet in front of that point
 			// was complete: its effects are the same as with any other segmentation, i.e. the
-			// payloads of those data packets have reached the host by the time the tunnel is gone
+			// payloads of those data packets have reached the host by the time the tunnel is gone.
+			// (Only where the GATEWAY ends the tunnel at the bad header while the client stays: a
+			// client that hangs up itself may make any response write fail, after which the gateway
+			// rightly drops whatever it had not processed yet.)
 			c.S.Fail("C08", "host-stream-incomplete", "%s/%s: the tunnel ended at %s; the data packets in front of that point declared %d payload bytes, the host received %d (sent=%s)", p.Name, p.Transport, unframeable, sv.HostWant, sv.HostGot, planString(p, len(t.Client.Sent)))
 		}
 	}
